@@ -545,8 +545,9 @@ func runC12(r *Run) {
 		c.Nontrivial = true
 	})
 
-	// corpus 1: the excluded point — a temp file cannot be created half-way (hook name so long that
-	// the admission-response file name exceeds NAME_MAX while the first two names still fit)
+	// corpus 1: the repaired defect — a temp file cannot be created half-way (hook name so long that
+	// the admission-response file name exceeds NAME_MAX while the first two names still fit); the
+	// unrepaired Run left the first two files behind on every retry
 	r.One(1, func(c *Case, rng *Rng) {
 		long := strings.Repeat("a", 187) + ".sh" // SafeName: 190 characters
 		env, err := c12Setup(r, c, []string{long})
@@ -571,10 +572,13 @@ func runC12(r *Run) {
 		_ = env.writeScripts(x, rng)
 		env.runAll([]*c12Exec{x})
 		_, statErr := os.Stat(filepath.Join(env.recDir, "exec-1"))
+		left := env.leftover()
 		c.Op(fmt.Sprintf("prepfail 1 created=%d", created),
-			fmt.Sprintf("status=%s started=%s leftover=%d", x.status, c13B01(statErr == nil), env.leftover()))
+			fmt.Sprintf("status=%s started=%s leftover=%d", x.status, c13B01(statErr == nil), left))
+		// "all temporary files of an execution are deleted when it ends, whatever the outcome"
+		c.Oracle(fmt.Sprintf("tmpdir leftover=%d", left))
 		c.Note("corpus")
-		c.Desc = "excluded point (outside the quantifier): temp file creation fails half-way; earlier files stay, the process is not started"
+		c.Desc = "temp file creation fails half-way (190-character hook name): the process is not started, the execution fails, no file may stay"
 		c.Nontrivial = true
 	})
 
